@@ -166,6 +166,7 @@ func ReleaseMacroNode(node *MacroNode) {
 	node.params = nil
 	node.defaults = nil
 	node.body = nil
+	node.siblings = nil
 	MacroNodePool.Put(node)
 }
 
